@@ -1,5 +1,83 @@
-"""Canary self-test (thorough tier) — placeholder until canaries are registered."""
+"""Canary self-test (thorough tier): every canary mutant of the property (selftest/*.diff, one broken instance each, still
+compiling) is applied to a scratch copy of /repo's current tree; the rule must fire and name that instance. A canary that
+does not fire means the CHECKER is broken (exit non-zero, no VIOLATION line for the property)."""
+import importlib
+import json
+import os
+import shutil
+import subprocess
+import sys
+
+from . import extract, facts as factsmod, report
+
+VERIF = report.VERIF
 
 
-def run(prop, seed):
-    return 0
+def _copy_tree(src, dst):
+    os.makedirs(dst, exist_ok=True)
+    subprocess.run(["rsync", "-a", "--delete", "--exclude", "target", "--exclude", ".git", src.rstrip("/") + "/", dst.rstrip("/") + "/"], check=True)
+
+
+def run(prop, seed=0, out=print):
+    exp_path = os.path.join(VERIF, "selftest", "expect.json")
+    if not os.path.exists(exp_path):
+        return 0
+    exp = {k: v for k, v in json.load(open(exp_path)).items() if isinstance(v, dict) and v.get("property") == prop}
+    if not exp:
+        out(f"[selftest] {prop}: no canaries registered")
+        return 0
+    scratch = os.environ.get("VERIF_SCRATCH", f"/var/tmp/vrp-verif-{os.getpid()}")
+    rc = 0
+    results = []
+    try:
+        for name in sorted(exp):
+            want = exp[name]["expect"]
+            _copy_tree(extract.REPO, scratch)
+            pr = subprocess.run(["patch", "-p1", "-s", "-i", os.path.join(VERIF, "selftest", name)], cwd=scratch, stdout=subprocess.PIPE, stderr=subprocess.STDOUT, text=True)
+            if pr.returncode != 0:
+                # the canary no longer applies to the current tree (the anchor moved): report, but this is not a checker failure
+                results.append({"canary": name, "status": "not-applicable", "detail": pr.stdout[-300:]})
+                out(f"[selftest] {prop}: canary {name} does not apply to the current tree (skipped)")
+                continue
+            try:
+                fdir, h, info = extract.ensure_facts(repo=scratch, log=open(os.devnull, "w"))
+            except extract.ExtractionError as e:
+                results.append({"canary": name, "status": "not-compiling", "detail": str(e)[-300:]})
+                out(f"[selftest] {prop}: canary {name} does not compile on the current tree (skipped)")
+                continue
+            F = factsmod.Facts.load(fdir)
+            F.repo = scratch
+            mod = importlib.import_module(f"vv.rules.{prop.lower()}")
+            ctx = report.Ctx(F, prop, "quick", seed)
+            saved = extract.REPO
+            extract.REPO = scratch
+            try:
+                mod.run(ctx)
+            finally:
+                extract.REPO = saved
+            ctx.finish_floors()
+            got = [f"{f.rule} | {f.instance}" for f in ctx.findings]
+            if any(want in g for g in got):
+                results.append({"canary": name, "status": "fired", "expected": want})
+                out(f"[selftest] {prop}: canary {name} fired ({want})")
+            else:
+                rc = 3
+                results.append({"canary": name, "status": "MISSED", "expected": want, "got": got[:5]})
+                out(f"SELFTEST-FAILED property={prop} canary={name}: expected `{want}`, checker reported {got[:3]}")
+            shutil.rmtree(os.path.join(extract.CACHE, h), ignore_errors=True)
+            try:
+                os.unlink(os.path.join(extract.CACHE, h + ".lock"))
+            except OSError:
+                pass
+    finally:
+        shutil.rmtree(scratch, ignore_errors=True)
+    # append the self-test outcome to the evidence file written by the property run
+    ev_path = os.path.join(VERIF, "evidence", f"{prop}.json")
+    try:
+        ev = json.load(open(ev_path))
+        ev["coverage"]["selftest"] = results
+        ev["coverage"]["evaluations"] = ev["coverage"].get("evaluations", 0) + len(results)
+        json.dump(ev, open(ev_path, "w"), indent=1)
+    except Exception:
+        pass
+    return rc
